@@ -49,8 +49,12 @@ def needs(sid):
 def main():
     ids = sys.argv[1:] or sorted(os.listdir(SEEDED))
     ids = [i for i in ids if os.path.exists(os.path.join(SEEDED, i, "patch.diff"))]
-    with cf.ThreadPoolExecutor(max_workers=3) as ex:
-        metas = list(ex.map(test, ids))
+    def run(sid):
+        m = test(sid)
+        print("..", m["seed"], "applies" if m.get("applies") else "NO-APPLY", "caught" if m.get("caught") else "MISSED", m.get("check_exit"), flush=True)
+        return m
+    with cf.ThreadPoolExecutor(max_workers=int(os.environ.get("SEED_WORKERS", "3"))) as ex:
+        metas = list(ex.map(run, ids))
     for m in metas:
         m["what_it_breaks_and_needs"] = needs(m["seed"])
         m["ran"] = "tools/seedall.py: demo without/with change, test-suite summary with change, property's quick check against the patched scratch worktree"
